@@ -1,6 +1,8 @@
 package graph
 
 import (
+	"strings"
+
 	"github.com/vektah/gqlparser/v2/ast"
 
 	"github.com/99designs/gqlgen/zzsym"
@@ -12,6 +14,9 @@ type c02Case struct {
 	want  string // arguments the resolver must receive; "" = coercion fails
 	errAt string // for failures: path of the error
 }
+
+// cases in which an input object literal field is given by a variable that the request does not provide
+func (c c02Case) nestedVar() bool { return strings.HasSuffix(c.query, " #nestedvar") }
 
 const c02Def = "f=nil xs=nil e=RED o=nil id=nil fl=nil n=7 ys=nil"
 
@@ -35,6 +40,17 @@ var c02Cases = []c02Case{
 	{`{ me { calc(ys: 3) } }`, nil, "f=nil xs=nil e=RED o=nil id=nil fl=nil n=7 ys=[[3]]", ""},
 	{`{ me { calc(ys: [1, 2]) } }`, nil, "f=nil xs=nil e=RED o=nil id=nil fl=nil n=7 ys=[[1],[2]]", ""},
 	{`{ me { calc(ys: [[1, 2], null]) } }`, nil, "f=nil xs=nil e=RED o=nil id=nil fl=nil n=7 ys=[[1,2],nil]", ""},
+	// omitted vs explicit null vs value, through Omittable fields and a map-backed input; defaults fill omitted fields only
+	{`{ me { patch } }`, nil, "p=nil b=nil", ""},
+	{`{ me { patch(p: {}, b: {}) } }`, nil, "p={note:unset count:5 tags:unset sub:unset} b={b:d}", ""},
+	{`{ me { patch(p: {note: null, count: null, tags: null, sub: null}, b: {a: null, b: null, sub: null}) } }`, nil, "p={note:null count:null tags:null sub:null} b={a:null b:null sub:null}", ""},
+	{`{ me { patch(p: {note: "x", count: 2, tags: "t", sub: {note: "y"}}, b: {a: 1, b: "z", sub: {a: 2}}) } }`, nil, "p={note:x count:2 tags:[t] sub:{note:y count:5 tags:unset sub:unset}} b={a:1 b:z sub:{a:2 b:d}}", ""},
+	{`query($p: Patch, $b: Bag) { me { patch(p: $p, b: $b) } }`, map[string]any{"p": map[string]any{"note": nil, "sub": map[string]any{}}, "b": map[string]any{"sub": map[string]any{"b": nil}}}, "p={note:null count:5 tags:unset sub:{note:unset count:5 tags:unset sub:unset}} b={b:d sub:{b:null}}", ""},
+	{`query($n: String, $c: Int) { me { patch(p: {note: $n, count: $c}) } } #nestedvar`, map[string]any{"n": nil}, "p={note:null count:5 tags:unset sub:unset} b=nil", ""},
+	{`query($n: String, $c: Int = 9) { me { patch(p: {note: $n, count: $c}) } }`, map[string]any{"n": "v"}, "p={note:v count:9 tags:unset sub:unset} b=nil", ""},
+	{`query($t: [String!]) { me { patch(p: {tags: $t}, b: {a: 3}) } } #nestedvar`, map[string]any{}, "p={note:unset count:5 tags:unset sub:unset} b={a:3 b:d}", ""},
+	{`query($p: Patch) { me { patch(p: $p) } }`, map[string]any{"p": nil}, "p=nil b=nil", ""},
+	{`query($p: Patch) { me { patch(p: $p) } }`, map[string]any{"p": map[string]any{"count": "x"}}, "", "me.patch.p.count"},
 	{`{ me { calc(o: "bad") } }`, nil, "", "me.calc.o"},
 	{`query($e: Color) { me { calc(e: $e) } }`, map[string]any{"e": "PURPLE"}, "", "me.calc.e"},
 	{`query($f: Filter) { me { calc(f: $f) } }`, map[string]any{"f": map[string]any{"min": "x"}}, "", "me.calc.f.min"},
@@ -63,7 +79,14 @@ func Harness_C02_args() {
 	w := newWorld(0, false)
 	doc := c02Docs[ci]
 	got := runOp(w, doc, doc.Operations[0], c.vars)
+	if len(w.args) > 0 {
+		zzsym.Event("args", w.args[0])
+	}
 	if c.want != "" {
+		if c.nestedVar() {
+			// spec 6.1.2 / input object coercion: an entry whose value is a variable without a runtime value is treated as omitted
+			zzsym.Assert(len(w.args) == 1 && w.args[0] == c.want, "an input field given by a variable the request does not provide is treated as omitted")
+		}
 		zzsym.Assert(len(w.args) == 1 && w.args[0] == c.want, "the resolver receives exactly the coerced arguments")
 		zzsym.Assert(len(got.errs) == 0, "no error for coercible input")
 		zzsym.Reach("c02.coerced")
@@ -71,8 +94,5 @@ func Harness_C02_args() {
 		zzsym.Assert(len(w.args) == 0, "the resolver is not called when an argument cannot be coerced")
 		zzsym.Assert(len(got.errs) == 1 && got.errs[0] == c.errAt, "one error at the argument's path")
 		zzsym.Reach("c02.rejected")
-	}
-	if len(w.args) > 0 {
-		zzsym.Event("args", w.args[0])
 	}
 }
